@@ -140,8 +140,26 @@ struct CrcSim
         if (p.knob("huge4g", 0))
         { // thorough tier only: a message longer than 2^32 bytes (zero pages, never resident) fed at once and in three pieces
             size_t const N = ((size_t)1 << 32) + 13 + (size_t)(mag64(p.knob("msglen", 16)) % 64);
-            unsigned char *big = (unsigned char *)mmap(nullptr, N, PROT_READ, MAP_PRIVATE | MAP_ANONYMOUS | MAP_NORESERVE, -1, 0);
+            unsigned char *big = (unsigned char *)mmap(nullptr, N, PROT_READ | PROT_WRITE, MAP_PRIVATE | MAP_ANONYMOUS | MAP_NORESERVE, -1, 0);
             if (big == MAP_FAILED) { c.st.add("probe.crc_4GiB_message_not_mappable"); return; }
+            big[5] = 0x21; big[((size_t)1 << 31) + 3] = 0x5A; big[N - 2] = 0xC3; // three resident pages; the rest stays zero pages
+            if (p.knob("huge4g", 0) == 2)
+            { // the same for one of the two multiplicative hashes (the length-delimited form; zero bytes have no string form)
+                // (a run of 2^32 zero bytes multiplies the running value by 131^(2^32) = 1 (mod 2^32): without the non-zero bytes set
+                // above a length truncated to 32 bits would go unnoticed)
+                bool const sdbm = (mag64(p.knob("msgseed", 1)) & 1) != 0;
+                a_u32 const iv32 = (a_u32)(init ? init : 1);
+                size_t const h1 = (size_t)3 << 29, h2 = N - 2 * h1;
+                a_u32 whole32, parts32;
+                c.site(sdbm ? "a_hash_sdbm_" : "a_hash_bkdr_");
+                if (sdbm) { whole32 = a_hash_sdbm_(big, N, iv32); parts32 = a_hash_sdbm_(big + 2 * h1, h2, a_hash_sdbm_(big + h1, h1, a_hash_sdbm_(big, h1, iv32))); }
+                else { whole32 = a_hash_bkdr_(big, N, iv32); parts32 = a_hash_bkdr_(big + 2 * h1, h2, a_hash_bkdr_(big + h1, h1, a_hash_bkdr_(big, h1, iv32))); }
+                munmap(big, N);
+                c.steps += 2; c.st.add("probe.hash_message_longer_than_4GiB");
+                if (whole32 != parts32) c.fail("pieces-differ-from-whole", sdbm ? "a_hash_sdbm_" : "a_hash_bkdr_", "a message of %zu bytes hashed at once gives %x, in three pieces %x", N, whole32, parts32);
+                c.obs(whole32);
+                return;
+            }
             size_t const esz0 = (size_t)w / 8;
             tm = SA.halloc(0x100 * esz0); tl = SA.halloc(0x100 * esz0);
             switch (w)
@@ -372,6 +390,14 @@ struct UtfSim
                 }
                 c.st.add("probe.stated_length_beyond_4GiB");
             }
+            if (okk)
+            { // the result variable may overlap the bytes being decoded: nothing in the interface (no restrict) forbids it
+                a_u32 w[2] = {0, 0}; memcpy(w, enc, want);
+                c.site("a_utf_decode");
+                unsigned const ra = a_utf_decode(w, want, &w[0]);
+                if (ra != want || w[0] != cp) okk = c.fail("round-trip-failed", "a_utf_decode", "U+%X (%u bytes) decoded in place, the result variable overlapping the bytes, gives length %u value U+%X", cp, want, ra, w[0]);
+                c.st.add("probe.decode_in_place");
+            }
             bool ok2; if (okk) { uint32_t j; unsigned const rz = guarded_decode(enc, 0, &j, ok2); if (ok2 && rz != 0) okk = c.fail("proper-prefix-accepted", "a_utf_decode", "zero available bytes decode with length %u", rz); }
         }
         SA.hfree(enc);
@@ -537,7 +563,7 @@ struct StreamEngine : Engine
             p.set("wsel", (int64_t)r.below(4)); p.set("polyseed", (int64_t)r.below(1u << 30)); p.set("initsel", (int64_t)r.below(1u << 30));
             p.set("msglen", (int64_t)r.geolen(0, 300)); p.set("msgseed", (int64_t)r.below(1u << 30)); p.set("pattern", (int64_t)r.below(5));
             p.set("prefill", (int64_t)r.below(6)); p.set("polyedge", (int64_t)r.below(24)); p.set("longmsg", r.chance(1, 300));
-            if (tier && r.chance(1, 400000)) { p.set("huge4g", 1); p.ops.clear(); return p; }
+            if (tier && r.chance(1, 400000)) { p.set("huge4g", r.chance(1, 4) ? 2 : 1); p.ops.clear(); return p; }
             int64_t const nops = r.geolen(0, 40);
             for (int64_t i = 0; i < nops; ++i) { Op o; uint64_t k = r.below(8); o.kind = k < 6 ? X_FRAG : k == 6 ? X_EMPTY : X_REST; o.a[0] = (int64_t)r.below(100000); p.ops.push_back(o); }
         }
